@@ -303,3 +303,135 @@ Proof.
   - destruct (cp_bsid6 cp) as [[[f sid] [beh bl nl fl al]]|]; cbn in *; [|trivial]. destruct W3 as [_ [Hl _]].
     rewrite app_length, Hl. reflexivity.
 Qed.
+
+(* ------------------------------------------------------------------ *)
+(* the listing of a stored TUNNEL_ENCAP value is accepted again as the same value *)
+Lemma cp_steps_app : forall a b cp,
+  cp_steps cp (a ++ b) = match cp_steps cp a with Some cp' => cp_steps cp' b | None => None end.
+Proof.
+  induction a as [|s r IH]; intros b cp; cbn; [reflexivity|]. destruct (cp_step cp s); [apply IH|reflexivity].
+Qed.
+
+Lemma bits2 : forall f, f < 256 -> f mod 64 = 0 -> flag_bit (bit_set f 128) 128 + flag_bit (bit_set f 64) 64 = f.
+Proof.
+  intros f H1 H2. assert (E : f = 0 \/ f = 64 \/ f = 128 \/ f = 192) by lia.
+  destruct E as [-> | [-> | [-> | ->]]]; reflexivity.
+Qed.
+
+Lemma bits3 : forall f, f < 256 -> f mod 32 = 0 ->
+  flag_bit (bit_set f 128) 128 + flag_bit (bit_set f 64) 64 + flag_bit (bit_set f 32) 32 = f.
+Proof.
+  intros f H1 H2. assert (E : f = 0 \/ f = 32 \/ f = 64 \/ f = 96 \/ f = 128 \/ f = 160 \/ f = 192 \/ f = 224) by lia.
+  destruct E as [-> | [-> | [-> | [-> | [-> | [-> | [-> | ->]]]]]]]; reflexivity.
+Qed.
+
+Lemma bits4 : forall f, f < 256 -> f mod 16 = 0 -> segflags (flags4 f) = f.
+Proof.
+  intros f H1 H2.
+  assert (E : f = 0 \/ f = 16 \/ f = 32 \/ f = 48 \/ f = 64 \/ f = 80 \/ f = 96 \/ f = 112 \/ f = 128 \/ f = 144 \/ f = 160
+              \/ f = 176 \/ f = 192 \/ f = 208 \/ f = 224 \/ f = 240) by lia.
+  repeat (destruct E as [-> | E]; [reflexivity|]). subst. reflexivity.
+Qed.
+
+Lemma ebs_roundtrip : forall e, wf_ebs e -> ebs_from_api (ebs_to_api e) = Some e.
+Proof.
+  intros [beh bl nl fl al] H. cbn in *. destruct (_ || _) eqn:E.
+  - repeat (apply orb_true_iff in E; destruct E as [E|E]); try (apply N.ltb_lt in E; lia); apply Z.ltb_lt in E; lia.
+  - rewrite N2Z.id. reflexivity.
+Qed.
+
+Lemma seg_roundtrip : forall g, wf_seg g -> seg_listable g -> seg_from_api (seg_to_api g) = Some g.
+Proof.
+  intros [f l|f sid e] W L; cbn [seg_to_api seg_from_api].
+  - destruct W as [Hf Hl]. cbn in L. destruct (N.ltb_spec 1048575 l); [lia|]. rewrite bits4 by assumption. reflexivity.
+  - destruct W as [Hf [Hl [_ He]]]. destruct L as [L1 L2]. rewrite Hl. cbn [Nat.eqb negb]. rewrite bits4 by assumption.
+    destruct e as [e'|]; cbn [option_map].
+    + rewrite L2 by discriminate. cbn [option_map]. rewrite ebs_roundtrip by exact He. reflexivity.
+    + destruct (bit_set f 64); reflexivity.
+Qed.
+
+Lemma seglists_steps : forall sls pref bsid bsid6 enlp prio segs,
+  Forall (fun sl => wf_opt (fun w => fst w < 256 /\ snd w < 4294967296) (fst sl) /\ Forall wf_seg (snd sl)) sls ->
+  Forall (fun sl => Forall seg_listable (snd sl)) sls ->
+  cp_steps (mkCp pref bsid bsid6 enlp prio segs None None) (map (fun sl => ATsSegList (fst sl) (map seg_to_api (snd sl))) sls)
+  = Some (mkCp pref bsid bsid6 enlp prio (segs ++ sls) None None).
+Proof.
+  induction sls as [|[w gs] r IH]; intros pref bsid bsid6 enlp prio segs W L; cbn [map cp_steps].
+  - rewrite app_nil_r. reflexivity.
+  - inversion W as [|? ? [Hw Hg] Wr]; subst. inversion L as [|? ? Lg Lr]; subst. cbn [fst snd] in *.
+    cbn [cp_step].
+    assert (E : match w with Some (f, _) => 255 <? f | None => false end = false).
+    { destruct w as [[f x]|]; [|reflexivity]. cbn in Hw. destruct (N.ltb_spec 255 f); [lia|reflexivity]. }
+    rewrite E.
+    rewrite (opt_all_map seg_from_api seg_to_api (fun g => wf_seg g /\ seg_listable g)).
+    + rewrite IH by assumption. rewrite <- app_assoc. reflexivity.
+    + intros g [? ?]. apply seg_roundtrip; assumption.
+    + apply Forall_forall. intros g Hg'. split; [exact (proj1 (Forall_forall _ _) Hg g Hg')|exact (proj1 (Forall_forall _ _) Lg g Hg')].
+Qed.
+
+Lemma cp_roundtrip : forall cp, wf_cp cp -> cp_listable cp -> cp_steps cp_empty (cp_to_api cp) = Some cp.
+Proof.
+  intros [pref bsid bsid6 enlp prio segs name pname] [W1 [W2 [W3 [W4 [W5 [W6 [W7 W8]]]]]]] [L2 [L3 L6]].
+  unfold cp_to_api, cp_empty. cbn [cp_pref cp_bsid cp_bsid6 cp_enlp cp_prio cp_segs cp_name cp_pname] in *.
+  (* preference *)
+  rewrite cp_steps_app.
+  assert (S1 : cp_steps (mkCp None None None None None [] None None) (opt_bytes pref (fun x => [ATsPref (fst x) (snd x)]))
+               = Some (mkCp pref None None None None [] None None)).
+  { destruct pref as [[f p]|]; [|reflexivity]. cbn in W1. cbn. destruct (N.ltb_spec 255 f); [lia|reflexivity]. }
+  rewrite S1. clear S1.
+  (* binding SID *)
+  rewrite cp_steps_app.
+  match goal with |- context [cp_steps ?s (opt_bytes bsid ?f)] =>
+    assert (S2 : cp_steps s (opt_bytes bsid f) = Some (mkCp pref bsid None None None [] None None)) end.
+  { destruct bsid as [[f l|f sid]|]; [| |reflexivity]; cbn [opt_bytes cp_steps cp_step wf_opt] in *.
+    - destruct W2 as [Hf Hl]. unfold be32.
+      pose proof (of_be32_be32 (l * 4096) ltac:(lia)) as E. rewrite E.
+      replace (l * 4096 mod 4096) with 0 by lia. replace (l * 4096 / 4096) with l by lia.
+      cbn [N.eqb negb orb once]. rewrite bits2 by assumption. reflexivity.
+    - destruct W2 as [Hf [Hl _]]. rewrite Hl. cbn [Nat.eqb negb once]. cbn [flag_bit]. rewrite N.add_0_r.
+      rewrite bits2 by assumption. reflexivity. }
+  rewrite S2. clear S2.
+  (* SRv6 binding SID with behaviour *)
+  rewrite cp_steps_app.
+  match goal with |- context [cp_steps ?s (opt_bytes bsid6 ?f)] =>
+    assert (S3 : cp_steps s (opt_bytes bsid6 f) = Some (mkCp pref bsid bsid6 None None [] None None)) end.
+  { destruct bsid6 as [[[f sid] e]|]; [|reflexivity]; cbn [opt_bytes cp_steps cp_step wf_opt] in *.
+    destruct W3 as [Hf [Hl [_ He]]]. rewrite Hl. cbn [Nat.eqb negb]. rewrite ebs_roundtrip by exact He.
+    cbn [once]. rewrite bits3 by assumption. reflexivity. }
+  rewrite S3. clear S3.
+  (* ENLP, priority *)
+  rewrite cp_steps_app.
+  match goal with |- context [cp_steps ?s (opt_bytes enlp ?f)] =>
+    assert (S4 : cp_steps s (opt_bytes enlp f) = Some (mkCp pref bsid bsid6 enlp None [] None None)) end.
+  { destruct enlp as [[f e]|]; [|reflexivity]; cbn [opt_bytes cp_steps cp_step wf_opt fst snd] in *.
+    destruct W4 as [Hf He]. destruct (N.ltb_spec 255 f); [lia|]. destruct (Z.ltb_spec (Z.of_N e) 0); [lia|].
+    destruct (Z.ltb_spec 255 (Z.of_N e)); [lia|]. cbn [orb once negb]. rewrite N2Z.id. reflexivity. }
+  rewrite S4. clear S4.
+  rewrite cp_steps_app.
+  match goal with |- context [cp_steps ?s (opt_bytes prio ?f)] =>
+    assert (S5 : cp_steps s (opt_bytes prio f) = Some (mkCp pref bsid bsid6 enlp prio [] None None)) end.
+  { destruct prio as [p|]; [|reflexivity]; cbn [opt_bytes cp_steps cp_step wf_opt] in *.
+    destruct (N.ltb_spec 255 p); [lia|]. reflexivity. }
+  rewrite S5. clear S5.
+  (* segment lists *)
+  rewrite cp_steps_app. rewrite seglists_steps by assumption. cbn [app].
+  (* names *)
+  rewrite cp_steps_app.
+  match goal with |- context [cp_steps ?s (opt_bytes name ?f)] =>
+    assert (S7 : cp_steps s (opt_bytes name f) = Some (mkCp pref bsid bsid6 enlp prio segs name None)) end.
+  { destruct name as [n|]; reflexivity. }
+  rewrite S7. clear S7.
+  destruct pname as [n|]; [|reflexivity]. cbn [opt_bytes cp_steps cp_step wf_opt] in *.
+  destruct W8 as [_ Hu]. rewrite Hu. reflexivity.
+Qed.
+
+Theorem te_roundtrip : forall l, wf_te l -> te_listable l -> te_from_api (te_to_api l) = Some l.
+Proof.
+  intros l W L. unfold te_from_api, te_to_api.
+  apply (opt_all_map te_tlv_from_api te_tlv_to_api (fun t => wf_te_tlv t /\ match t with TeSr cp => cp_listable cp | TeRaw _ v => v = [] end)).
+  - intros [cp|ty v] [Wt Lt]; cbn [te_tlv_to_api te_tlv_from_api].
+    + cbn. rewrite cp_roundtrip by assumption. reflexivity.
+    + destruct Wt as [Ht [Hn _]]. subst v. destruct (N.ltb_spec 65535 ty); [lia|].
+      destruct (N.eqb_spec ty SR_POLICY); [contradiction|]. reflexivity.
+  - apply Forall_forall. intros t Ht. split; [exact (proj1 (Forall_forall _ _) W t Ht)|exact (proj1 (Forall_forall _ _) L t Ht)].
+Qed.
